@@ -621,6 +621,8 @@ class ChiSquared(ECcone):
         ECcone.__init__(self, mu=spherical_search(self.dfn), search=search, dfd=dfd)
 
     def __call__(self, x, search=None):
+        # thresholds may be lists or arrays of any dtype: cast before transforming
+        x = np.asarray(x, np.float64)
         return ECcone.__call__(self, np.sqrt(x), search=search)
 
 
@@ -639,6 +641,8 @@ class FStat(ECcone):
         ECcone.__init__(self, mu=spherical_search(self.dfn), search=search, dfd=dfd)
 
     def __call__(self, x, search=None):
+        # thresholds may be lists or arrays of any dtype: cast before transforming
+        x = np.asarray(x, np.float64)
         return ECcone.__call__(self, np.sqrt(x * self.dfn), search=search)
 
 
@@ -655,6 +659,8 @@ class Roy(ECcone):
                         search=search, dfd=dfd, product=product)
 
     def __call__(self, x, search=None):
+        # thresholds may be lists or arrays of any dtype: cast before transforming
+        x = np.asarray(x, np.float64)
         return ECcone.__call__(self, np.sqrt(x * self.dfn), search=search)
 
 
@@ -690,6 +696,8 @@ class Hotelling(ECcone):
         ECcone.__init__(self, mu=[1], search=search, dfd=dfd, product=product)
 
     def __call__(self, x, search=None):
+        # thresholds may be lists or arrays of any dtype: cast before transforming
+        x = np.asarray(x, np.float64)
         return ECcone.__call__(self, np.sqrt(x), search=search)
 
 
@@ -708,6 +716,8 @@ class OneSidedF(ECcone):
         ECcone.__init__(self, mu=spherical_search(self.dfn), search=search, dfd=dfd)
 
     def __call__(self, x, search=None):
+        # thresholds may be lists or arrays of any dtype: cast before transforming
+        x = np.asarray(x, np.float64)
         IntrinsicVolumes.__init__(self, self.regions[0])
         d1 = ECcone.__call__(self, np.sqrt(x * self.dfn), search=search)
         IntrinsicVolumes.__init__(self, self.regions[1])
